@@ -33,7 +33,7 @@ LEVEL_NOTE = ("Catalogue-bounded: cycle kinds outside the listed seven are not g
 
 SHAPES = ["use", "extends_same", "extends_cross", "submodule", "submodule_direct", "pointer", "pointer_cross",
           "associate",
-          "tbp", "include", "include_scoped", "include_mixed", "ppinclude", "interface_proc", "use_only_rename"]
+          "tbp", "proc_interface", "include", "include_scoped", "include_mixed", "ppinclude", "interface_proc", "use_only_rename"]
 CLOSURES = ["startup", "last_open", "edit_save", "break_reclose", "touch_each"]
 
 
@@ -150,6 +150,18 @@ def build(shape, L, tag):
         f[f"immain_{T}.f90"] = (f"program pim_{T}\n  implicit none\n  include 'im0_{T}.f90'\n  mv0_{T} = 2\n"
                                 f"end program\n")
         brk = (f"im0_{T}.f90", f"  include 'im{nxt(0, L)}_{T}.f90'", "  ! include removed")
+    elif shape == "proc_interface":
+        # procedures whose dummy procedure argument is declared with the procedure itself (or with
+        # each other) as interface
+        body = [f"module mpi_{T}", "  implicit none", "contains"]
+        for i in range(L):
+            j = nxt(i, L)
+            body += [f"  subroutine pf{i}_{T}(f, n)", f"    procedure(pf{j}_{T}) :: f", "    integer :: n",
+                     f"    call f(pf{i}_{T}, n)", "  end subroutine"]
+        body += [f"  subroutine drv_{T}()", f"    call pf0_{T}(pf{nxt(0, L)}_{T}, 1)", "  end subroutine",
+                 f"end module mpi_{T}"]
+        f[f"pi_{T}.f90"] = "\n".join(body) + "\n"
+        brk = (f"pi_{T}.f90", f"    procedure(pf{nxt(0, L)}_{T}) :: f", "    external :: f")
     elif shape == "pointer_cross":
         for i in range(L):
             j = nxt(i, L)
